@@ -440,6 +440,10 @@ def pass3 (path : String) (env : Env) (s : Schema) : List Diag :=
     | .type t =>
       (match t.body with
        | .ref r =>
+         -- `TYPE t = t;` / `TYPE t = LIST OF t;` (longer cycles are reported in a hash-order dependent way: not modelled)
+         (match r.core with
+          | .named n _ => if n = t.name then [mk path LibErrors.CIRCULAR_REFERENCE t.line [sArg n]] else []
+          | _ => []) ++
          typeRefDiags path env s r ++
          -- `TYPE t = e;` with `e` an entity (the check sits behind `ERRORis_enabled( TYPE_IS_ENTITY )`, always on)
          (match r with
@@ -554,6 +558,16 @@ def pass5 (path : String) (s : Schema) : Pass :=
   { diags := per.flatMap fun (overl, rules) => (overl.filterMap fun (r, d) => if r = some true then some d else none) ++ rules,
     diverges := per.any fun (overl, _) => overl.any fun (r, _) => r = none }
 
+/-- pass 2 dereferences the NULL entry that a failed `USE FROM <undefined>;` leaves in `use_schemas` when some schema
+    imports an item from the schema holding that clause and the look-up gets as far as the fully USE'd schemas — unless
+    the loop skips NULL entries (regenerated `useSchemasSkipsNull`) -/
+def nullUseCrash (f : File) : Bool :=
+  !ResolveGen.useSchemasSkipsNull &&
+  f.schemas.any fun s => resolvable f s && (useItems s ++ refItems s).any fun (src, it) =>
+    match findSchema f src with
+    | some t => (ownObj t it.old).isNone && (fullUses t).any fun U => (findSchema f U).isNone
+    | none => false
+
 /-- the schemas the later passes look at -/
 def liveSchemas (f : File) : List Schema := f.schemas.filter (resolvable f)
 
@@ -566,7 +580,7 @@ def resolveDiags (f : File) : Pass :=
   { diags := f.schemas.flatMap (pass1 f) ++ live.flatMap (pass2 f fb) ++
              live.flatMap (fun s => pass3 f.path (envOf f fb s) s) ++
              live.flatMap (fun s => pass4 f.path (envOf f fb s) s) ++ p5.flatMap (·.diags),
-    diverges := p5.any (·.diverges) }
+    diverges := p5.any (·.diverges) || nullUseCrash f }
 
 /-! ## the verdict -/
 
